@@ -102,10 +102,18 @@ func CalculateAmountToClaim(
 		remainingDepositValue = sdk.NewCoin(deposit.Denom, sdk.NewInt(0))
 	} else {
 		// calculate based on flow rate and remaining deposit
-		timeSinceLast := nowTime.Sub(lastOutflowTime)
-		secondsSinceLast := int64(timeSinceLast.Seconds())
-		numCoins := secondsSinceLast * flowRate
-		amountToClaim = sdk.NewCoin(deposit.Denom, sdk.NewIntFromUint64(uint64(numCoins)))
+		// whole seconds since the last outflow, in integer arithmetic: a Duration saturates at ~292 years
+		// and its float64 Seconds() rounds up just below a second boundary once the interval is long
+		secondsSinceLast := nowTime.Unix() - lastOutflowTime.Unix()
+		if nowTime.Nanosecond() < lastOutflowTime.Nanosecond() {
+			secondsSinceLast--
+		}
+		if secondsSinceLast < 0 {
+			secondsSinceLast = 0
+		}
+		// seconds x flow rate can exceed 64 bits (e.g. 18-decimal tokens)
+		numCoins := sdk.NewInt(secondsSinceLast).Mul(sdk.NewInt(flowRate))
+		amountToClaim = sdk.NewCoin(deposit.Denom, numCoins)
 		if deposit.Amount.GT(amountToClaim.Amount) {
 			remainingDepositValue = deposit.Sub(amountToClaim)
 		} else {
